@@ -65,6 +65,54 @@ def _block3_traces(ck, wd, exe, sf, nsys, tier, seed):
     return nexec
 
 
+def _lh_traces(ck, wd, exe, sf, nsys, tier, seed):
+    # nnls_lawson_hanson: model-checked transcription (MC_LawsonHanson) and per-phase trace validation (Trace_LH) through the
+    # second hook of nnls.c; deviations are drift (another correct pivoting rule would deviate too), ties are counted
+    r = vlib.run_tlc("MC_LawsonHanson", "MC_LawsonHanson_quick.cfg" if tier == "quick" else "MC_LawsonHanson.cfg", tag="mclh", timeout=3300, xmx="10g")
+    if r.rc != 0 or r.violated:
+        raise vlib.Infra("MC_LawsonHanson did not model-check cleanly: %s\n%s" % (r.violated, r.out[-2000:]))
+    ck.add_tlc("MC_LawsonHanson (%s)" % ("n <= 2" if tier == "quick" else "n <= 3"), r)
+    # vacuity guard and documented finding beyond the listed property: with an unconstrained trailing coordinate (npos < ncol)
+    # the algorithm can stop at x = 0 without ever solving for the free coordinate; the model finds it, Optimal is not vacuous
+    rf = vlib.run_tlc("MC_LawsonHanson", "MC_LawsonHanson_free.cfg", tag="mclhf", timeout=900, xmx="6g")
+    ck.cov["lawson_hanson_partially_constrained_counterexample_found"] = rf.violated == "Inv"
+    if rf.violated != "Inv":
+        raise vlib.Infra("MC_LawsonHanson_free.cfg no longer violates Inv: the Optimal invariant may be vacuous (or the model of the start of the algorithm changed)")
+    stride = 8 if tier == "quick" else max(1, -(-nsys // 60000))
+    tr = os.path.join(wd, "lh.ndjson")
+    rc, so, err, _ = vlib.run_driver(exe, ["tracelh", sf, str(stride), str(seed % stride), tr], timeout=1500, env={"OMP_NUM_THREADS": "2"})
+    if rc != 0:
+        cls = "hang" if "HANG" in err else "crash"
+        ck.violation({"class": cls, "mode": "tracelh"}, {"what": "nnls driver ended abnormally while tracing nnls_lawson_hanson (%s)" % cls, "stderr": err[-2500:]})
+        return 0
+    lines = [l for l in open(tr)]
+    nexec = sum(1 for l in lines if l.startswith('{"e":"start"'))
+    if nexec == 0 or not any(l.startswith('{"e":"freed"') for l in lines):
+        raise vlib.Infra("no Lawson-Hanson trace records: hook photospline_verif_lh missing from src/fitter/nnls.c?")
+    rep = []
+    r2 = vlib.run_tlc("Trace_LH", "Trace_LH.cfg", tag="trlh", workers=1, env={"TRACE": tr}, sink=rep.append, timeout=3300, xmx="8g")
+    ck.add_tlc("Trace_LH (%d executions, %d records)" % (nexec, len(lines)), r2)
+    if r2.violated == "TInv":
+        ck.violation({"class": "lawson-hanson-state-violates-design-invariant"}, {"what": "a state the real solver passed through violates Partition / Feasible / ZeroOnZ", "tlc": r2.out[-2500:]})
+        return nexec
+    if r2.rc != 0 or not rep:
+        if ck.violations:
+            ck.drift("Trace_LH could not evaluate the recorded trace of a run whose results violate the property: " + r2.out[-600:])
+            return nexec
+        raise vlib.Infra("Trace_LH failed:\n" + r2.out[-2000:])
+    best = min(rep, key=lambda r: len(r["deviations"]))
+    devs = [d for d in best["deviations"] if d["kind"] != "tie-skipped"]
+    ck.cov["lawson_hanson_executions_skipped_at_an_exact_tie"] = len(best["deviations"]) - len(devs)
+    ck.cov["lawson_hanson_executions_not_explained_by_the_algorithm_spec"] = len(devs)
+    for d in devs[:5]:
+        k = d["line"] - 1
+        while k > 0 and not lines[k].startswith('{"e":"start"'):
+            k -= 1
+        ck.drift("nnls_lawson_hanson took a step that LawsonHanson.tla does not have (phase %s, model at %s): system %s record %s" % (
+            d["e"], d["pc"], lines[k].strip()[:200], lines[d["line"] - 1].strip()[:300]))
+    return nexec
+
+
 def run(pid, tier, seed, replay=None):
     ck = vlib.Check(pid, tier, seed)
     wd = vlib.workdir("c11")
@@ -117,6 +165,7 @@ def run(pid, tier, seed, replay=None):
             if r4.violated != "Inv":
                 raise vlib.Infra("MC_Block3_original.cfg no longer finds the known counterexample: the Optimal invariant may be vacuous")
         # --- the algorithm itself: per-phase trace of nnls_normal_block3 (hook in nnls.c) against spec/Block3.tla
+        ck.cov["lawson_hanson_executions_trace_validated"] = _lh_traces(ck, wd, exe, sf, len(systems), tier, seed)
         ntr = _block3_traces(ck, wd, exe, sf, len(systems), tier, seed)
         ck.cov["block3_executions_trace_validated"] = ntr
         ck.cov["traces_validated_against_impl"] = len(rows_all)
